@@ -141,6 +141,7 @@ pub fn profile(prop: &str) -> Profile {
         }
         "C16" => {
             p.prop = "C16";
+            p.w[W_TRUNC] = 3;
             p.w[W_SETMIN] = 3;
             p.w[W_DISCARD] = 2;
             p.w[W_INCDISC] = 2;
